@@ -2,7 +2,7 @@
 (* C13 -- the behave Context as an API state machine.                       *)
 (*                                                                          *)
 (* (S) implementation model: what behave/runner.py Context and              *)
-(*     behave/fixture.py DO (frame stack, '@cleanups', '@layer', _record,   *)
+(*     behave/fixture.py DO (frame stack, '@cleanups', '@layer',            *)
 (*     _origin, _mode), as pure functions  Apply(s, op, seq) -> [s, ob].    *)
 (* (P) property monitor: what the statement of C13 DEMANDS, as a reference  *)
 (*     scope stack that consumes *observations* (exception type, probe of   *)
@@ -21,7 +21,7 @@ Pool == <<"a", "b", "failed", "text", "table">>      \* probed names, by index
 NP == 5
 NmA == 1
 NmB == 2
-NmFailed == 3       \* root attribute created by Context.__init__ WITHOUT a _record/_origin entry
+NmFailed == 3       \* root attribute created by Context.__init__ WITHOUT an _origin entry
 NmText == 4
 NmTable == 5
 Absent == 0         \* value codes: 1, 2 user values
@@ -35,7 +35,7 @@ LayerName == <<"testrun", "feature", "rule", "scenario">>
 ENone == 0
 EAttr == 1          \* AttributeError
 ELookup == 2        \* LookupError
-EKey == 3           \* KeyError (internal)
+EKey == 3           \* KeyError (internal; never predicted since the _record bookkeeping uses .get/.pop)
 ECleanup == 4       \* the exception raised by a cleanup function of the driver
 ESetup == 5         \* the exception raised by the setup part of a failing fixture
 EAssert == 6        \* AssertionError (execute_steps with a failing sub-step)
@@ -83,7 +83,6 @@ FirstPos(q, x) == CHOOSE j \in DOMAIN q : q[j] = x /\ \A j2 \in DOMAIN q : q[j2]
 \*            rz = 1 raises, live = 0 for the exhausted generator of a failing fixture (runs, does nothing)
 SFrame(l) == [layer |-> l, attrs |-> [i \in 1..NP |-> Absent], cls |-> <<>>]
 SInit == [frames |-> << [layer |-> 1, attrs |-> <<Absent, Absent, VFalse, VNone, VNone>>, cls |-> <<>>] >>,
-          record |-> {NmText, NmTable},         \* names with a _record entry
           origin |-> <<0, 0, 0, 1, 1>>,         \* _origin: 0 no entry, 1 BEHAVE, 2 USER
           mode |-> 1]                           \* _mode: 1 BEHAVE, 2 USER
 
@@ -99,28 +98,26 @@ MkOb(e, w, r, fr, ran) ==
    <<e, w, r>> \o [i \in 1..NP |-> IF Lk(fr, i) = Absent THEN 0 ELSE 1] \o [i \in 1..NP |-> Lk(fr, i)] \o ran
 Res(s, e, w, r, ran) == [s |-> s, ob |-> MkOb(e, w, r, s.frames, ran)]
 
-\* _emit_warning, called once per masked frame: 1 "behave runner is masking", 2 "user code is masking .. set by behave"
+\* _emit_warning, called once per masked frame: 1 "behave runner is masking", 2 "user code is masking .. set by behave";
+\* a name without _origin entry counts as set by behave (_origin.get(attr, BEHAVE)).  The _record entries only feed
+\* the text of the warning (_record.get(attr, _UNKNOWN_RECORD), _record.pop(attr, None)): not observable, not modelled.
+Origin(s, n) == IF s.origin[n] = 0 THEN 1 ELSE s.origin[n]
 WarnCode(s, n, cnt) == IF cnt = 0 THEN 0
-                       ELSE IF s.mode = 1 /\ s.origin[n] # 1 THEN 10 * cnt + 1
-                       ELSE IF s.mode = 2 /\ s.origin[n] # 2 THEN 10 * cnt + 2
+                       ELSE IF s.mode = 1 /\ Origin(s, n) # 1 THEN 10 * cnt + 1
+                       ELSE IF s.mode = 2 /\ Origin(s, n) # 2 THEN 10 * cnt + 2
                        ELSE 0
-\* Context.__setattr__: every OUTER frame holding the name needs self._record[name] (and self._origin[name])
+\* Context.__setattr__: one warning check per OUTER frame holding the name, then the top frame is assigned
 SetCore(s, n, v) ==
    LET d == Len(s.frames)
        outer == {k \in 1..(d - 1) : s.frames[k].attrs[n] # Absent}
-   IN IF outer # {} /\ (n \notin s.record \/ s.origin[n] = 0)
-      THEN [s |-> s, e |-> EKey, w |-> 0]
-      ELSE [s |-> [s EXCEPT !.frames[d].attrs[n] = v, !.record = @ \cup {n},
-                            !.origin[n] = IF @ = 0 THEN s.mode ELSE @],
-            e |-> ENone, w |-> WarnCode(s, n, Cardinality(outer))]
-\* Context._set_root_attribute: every NON-ROOT frame (the top one included) holding the name needs the record
+   IN [s |-> [s EXCEPT !.frames[d].attrs[n] = v, !.origin[n] = IF @ = 0 THEN s.mode ELSE @],
+       e |-> ENone, w |-> WarnCode(s, n, Cardinality(outer))]
+\* Context._set_root_attribute: one warning check per NON-ROOT frame (the top one included) holding the name
 SetRootCore(s, n, v) ==
    LET d == Len(s.frames)
        holders == {k \in 2..d : s.frames[k].attrs[n] # Absent}
-   IN IF holders # {} /\ (n \notin s.record \/ s.origin[n] = 0)
-      THEN [s |-> s, e |-> EKey, w |-> 0]
-      ELSE [s |-> [s EXCEPT !.frames[1].attrs[n] = v, !.origin[n] = IF @ = 0 THEN s.mode ELSE @],
-            e |-> ENone, w |-> WarnCode(s, n, Cardinality(holders))]
+   IN [s |-> [s EXCEPT !.frames[1].attrs[n] = v, !.origin[n] = IF @ = 0 THEN s.mode ELSE @],
+       e |-> ENone, w |-> WarnCode(s, n, Cardinality(holders))]
 RECURSIVE SetMany(_, _)
 SetMany(s, nv) == IF nv = <<>> THEN [s |-> s, e |-> ENone]
                   ELSE LET r == SetCore(s, Head(nv)[1], Head(nv)[2])
@@ -143,23 +140,23 @@ DoSet(s, n, v) == LET r == SetCore(s, n, v) IN Res(r.s, r.e, r.w, 0, <<>>)
 DoSetRoot(s, n, v) == LET r == SetRootCore(s, n, v) IN Res(r.s, r.e, r.w, 0, <<>>)
 DoGet(s, n) == LET x == Lk(s.frames, n) IN Res(s, IF x = Absent THEN EAttr ELSE ENone, 0, x, <<>>)
 DoHas(s, n) == Res(s, ENone, 0, IF Lk(s.frames, n) = Absent THEN 0 ELSE 1, <<>>)
-\* __delattr__: `del frame[attr]` THEN `del self._record[attr]` (the delete is applied even if the record is missing)
+\* __delattr__: only the current frame
 DoDel(s, n) ==
    LET d == Len(s.frames)
    IN IF s.frames[d].attrs[n] = Absent THEN Res(s, EAttr, 0, 0, <<>>)
-      ELSE Res([s EXCEPT !.frames[d].attrs[n] = Absent, !.record = @ \ {n}],
-               IF n \in s.record THEN ENone ELSE EKey, 0, 0, <<>>)
+      ELSE Res([s EXCEPT !.frames[d].attrs[n] = Absent], ENone, 0, 0, <<>>)
 \* use_or_assign_param / use_or_create_param
 DoUseOr(s, n, v) == LET x == Lk(s.frames, n)
                     IN IF x # Absent THEN Res(s, ENone, 0, x, <<>>)
                        ELSE LET r == SetCore(s, n, v) IN Res(r.s, r.e, r.w, IF r.e = ENone THEN v ELSE 0, <<>>)
-\* add_cleanup: with args a wrapper is stored; `if cleanup_func not in frame["@cleanups"]` compares the RAW callable
+\* add_cleanup: with args a fresh wrapper is stored (never a duplicate); a bare callable is stored itself and
+\* `if internal_cleanup_func not in frame["@cleanups"]` drops its second registration for the same frame
 DoAddCleanup(s, id, flags, l, seq) ==
    LET rz == flags % 2
        args == flags \div 2
        t == Target(s.frames, l)
    IN IF t = 0 THEN Res(s, ELookup, 0, 0, <<>>)
-      ELSE IF \E j \in DOMAIN s.frames[t].cls : s.frames[t].cls[j].fn = id THEN Res(s, ENone, 0, 0, <<>>)
+      ELSE IF args = 0 /\ \E j \in DOMAIN s.frames[t].cls : s.frames[t].cls[j].fn = id THEN Res(s, ENone, 0, 0, <<>>)
       ELSE Res([s EXCEPT !.frames[t].cls = Append(@, [key |-> IF args = 1 THEN Key(seq, 1, id) ELSE Key(0, 0, id),
                                                       fn |-> IF args = 1 THEN 0 ELSE id, rz |-> rz, live |-> 1])],
                ENone, 0, 0, <<>>)
@@ -174,11 +171,11 @@ DoUseFixture(s, id, rz, kind, seq) ==
                            ESetup, 0, 0, <<Key(seq, 3, id), Key(seq, 3, 99)>>)
 DoSwitchMode(s) == Res([s EXCEPT !.mode = 3 - @], ENone, 0, 0, <<>>)
 \* Step.run of the calling step sets text/table (BEHAVE mode); execute_steps saves them, every sub-step sets its
-\* own, and the saved values are assigned back only after the loop finished without a failing sub-step
+\* own, and the saved values are assigned back in a `finally` (after a failing sub-step too)
 DoExecSteps(s, ok) ==
    LET sb == [s EXCEPT !.mode = 1]
-       r == SetMany(sb, << <<NmText, VCaller>>, <<NmTable, VNone>>, <<NmText, VNone>>, <<NmTable, VSub>> >>
-                        \o (IF ok = 1 THEN << <<NmTable, VNone>>, <<NmText, VCaller>> >> ELSE <<>>))
+       r == SetMany(sb, << <<NmText, VCaller>>, <<NmTable, VNone>>, <<NmText, VNone>>, <<NmTable, VSub>>,
+                           <<NmTable, VNone>>, <<NmText, VCaller>> >>)
    IN Res([r.s EXCEPT !.mode = s.mode], IF r.e # ENone THEN r.e ELSE IF ok = 1 THEN ENone ELSE EAssert, 0, 0, <<>>)
 
 Apply(s, op, seq) ==
@@ -199,9 +196,12 @@ Apply(s, op, seq) ==
 
 \* ============================================================ (P) property monitor
 \* reference scope stack; regs = cleanups that must run when the scope ends, in registration order:
-\*   key, rz, n = number of registrations of a bare callable (the statement does not say whether a callable
-\*   registered twice runs once or twice: 1..n runs are accepted), tag = 1: registered WITH args while the same
-\*   callable was registered bare in that scope
+\*   key, rz, n = number of registrations of a BARE callable for this scope.  "Every cleanup registered with
+\*   add_cleanup (for the current scope, for a named layer, ...) runs exactly once": a cleanup function that is
+\*   registered again for the same scope -- whether as the current scope or by layer= -- is the same cleanup and runs
+\*   once (this is what add_cleanup's "AVOID DUPLICATES" promises); only its position in the LIFO order is not
+\*   determined by the statement (pairs with n > 1 are not judged by cleanup_lifo).  A registration with args is a
+\*   cleanup of its own (key per registration).
 MFrame(l) == [layer |-> l, attrs |-> [i \in 1..NP |-> Absent], regs |-> <<>>]
 MInit == << [layer |-> 1, attrs |-> <<Absent, Absent, VFalse, VNone, VNone>>, regs |-> <<>>] >>
 
@@ -223,12 +223,11 @@ ScopeEndV(regs, ran, e) ==
    LET keys == {regs[j].key : j \in DOMAIN regs}
        raisedRan == \E j \in DOMAIN regs : regs[j].rz = 1 /\ Count(ran, regs[j].key) > 0
        missed == {j \in DOMAIN regs : Count(ran, regs[j].key) = 0}
-       over == {j \in DOMAIN regs : Count(ran, regs[j].key) > regs[j].n}
+       over == {j \in DOMAIN regs : Count(ran, regs[j].key) > 1}
    IN UNION {
-       {<<"cleanup_once", "args_after_bare">> : j \in {x \in missed : regs[x].tag = 1}},
-       {<<"cleanup_despite_errors", "missed">> : j \in {x \in missed : regs[x].tag = 0 /\ raisedRan}},
-       {<<"fixture_cleanup", "missed">> : j \in {x \in missed : regs[x].tag = 0 /\ ~raisedRan /\ KeyKind(regs[x].key) = 2}},
-       {<<"cleanup_once", "missed">> : j \in {x \in missed : regs[x].tag = 0 /\ ~raisedRan /\ KeyKind(regs[x].key) # 2}},
+       {<<"cleanup_despite_errors", "missed">> : j \in {x \in missed : raisedRan}},
+       {<<"fixture_cleanup", "missed">> : j \in {x \in missed : ~raisedRan /\ KeyKind(regs[x].key) = 2}},
+       {<<"cleanup_once", "missed">> : j \in {x \in missed : ~raisedRan /\ KeyKind(regs[x].key) # 2}},
        {<<"fixture_cleanup", "repeated">> : j \in {x \in over : KeyKind(regs[x].key) = 2}},
        {<<"cleanup_once", "repeated">> : j \in {x \in over : KeyKind(regs[x].key) # 2}},
        {<<"cleanup_layer", "foreign">> : j \in {x \in DOMAIN ran : ran[x] \notin keys}},
@@ -286,14 +285,14 @@ MonCase(m, op, ob, seq) ==
                                  f == IF args = 0 /\ bare # {}
                                       THEN [m EXCEPT ![t].regs = [j \in DOMAIN @ |-> IF j \in bare THEN [@[j] EXCEPT !.n = @ + 1] ELSE @[j]]]
                                       ELSE [m EXCEPT ![t].regs = Append(@, [key |-> IF args = 1 THEN Key(seq, 1, op[2]) ELSE Key(0, 0, op[2]),
-                                                                            rz |-> rz, n |-> 1, tag |-> IF args = 1 /\ bare # {} THEN 1 ELSE 0])]
+                                                                            rz |-> rz, n |-> 1])]
                              IN MR(f, ViewV(f, ob, "visible") \cup EarlyV(ran), {ENone, ELookup})
         [] c = 11 -> LET kind == op[4]
                          want == CASE kind = 3 -> <<Key(seq, 3, 99)>>
                                    [] kind = 4 -> <<Key(seq, 3, n), Key(seq, 3, 99)>>
                                    [] OTHER -> <<Key(seq, 3, n)>>
                          sv == IF ran = want THEN {} ELSE {<<"fixture_cleanup", "setup">>}
-                         reg == [key |-> Key(seq, 2, n), rz |-> op[3], n |-> 1, tag |-> 0]
+                         reg == [key |-> Key(seq, 2, n), rz |-> op[3], n |-> 1]
                      IN CASE kind = 1 -> LET f == [m EXCEPT ![d].regs = Append(@, reg)] IN MR(f, sv \cup ViewV(f, ob, "visible"), {ENone})
                           [] kind = 2 -> LET f == [m EXCEPT ![d].attrs[NmA] = 2] IN MR(f, sv \cup ViewV(f, ob, "visible"), {ENone})
                           [] kind = 3 -> MR(m, sv \cup ViewV(m, ob, "visible"), {ENone, ESetup})
@@ -321,22 +320,4 @@ MonStep(m, op, ob, seq) ==
            IN [m |-> Forget(base, Bad(base, ob)), v |-> {<<"api_errors", ExcTag(ObsE(ob))>>}]
       ELSE [m |-> IF r.v = {} THEN r.fr ELSE Forget(r.fr, Bad(r.fr, ob)), v |-> r.v]
 
-\* ============================================================ known findings (narrow exception predicates)
-\* KF_C13_1: internal KeyError of the masking-warning bookkeeping: the name has no _record entry although a frame
-\*           that is consulted holds it (one _record entry per NAME, deleted by any `del`; root attributes created
-\*           by Context.__init__ / _set_root_attribute never get one)
-KF_C13_1(s, op, ob) == /\ ObsE(ob) = EKey
-                       /\ \/ op[1] \in {3, 4, 7} /\ op[2] \notin s.record
-                          \/ op[1] = 11 /\ op[4] = 2 /\ NmA \notin s.record
-\* KF_C13_2: execute_steps with a failing sub-step leaves the sub-step's text/table
-KF_C13_2(s, op, ob) == op[1] = 13 /\ op[2] = 0 /\ ObsE(ob) = EAssert /\ ObsVal(ob, NmText) = VNone /\ ObsVal(ob, NmTable) = VSub
-\* KF_C13_3: add_cleanup(f, args) after add_cleanup(f) in the same scope is dropped by the duplicate test
-KF_C13_3(m, op, ob) == /\ op[1] \in {2, 14}
-                       /\ \E j \in DOMAIN m[Len(m)].regs : m[Len(m)].regs[j].tag = 1 /\ Count(ObsRan(ob), m[Len(m)].regs[j].key) = 0
-KFs(s, m, op, ob) == (IF KF_C13_1(s, op, ob) THEN {"KF_C13_1"} ELSE {}) \cup (IF KF_C13_2(s, op, ob) THEN {"KF_C13_2"} ELSE {})
-                     \cup (IF KF_C13_3(m, op, ob) THEN {"KF_C13_3"} ELSE {})
-KFOf(x) == IF x[1] = "api_errors" /\ x[2] = "KeyError" THEN "KF_C13_1"
-           ELSE IF x[1] = "exec_steps_restore" /\ x[2] = "after_failure" THEN "KF_C13_2"
-           ELSE IF x[1] = "cleanup_once" /\ x[2] = "args_after_bare" THEN "KF_C13_3"
-           ELSE "none"
 =============================================================================
